@@ -10,6 +10,6 @@ pub use unordered_receiver::{
 
 #[cfg(kani)]
 #[allow(warnings, clippy::all, clippy::pedantic)]
-mod verif_kani {
+pub(crate) mod verif_kani {
     include!(concat!(env!("IPA_VERIF_DIR"), "/harness/buffers.rs"));
 }
